@@ -303,7 +303,11 @@ def prove_connection_use(src_root, ex: Explorer):
             return A.SimpleAwaitable(it2.aio, 'receive_data', lambda it3: None)
         it.hooks[f'{CONN}:PeerConnection.receive_data'] = c_receive_data
         run(it, it.getattr(c, 'receive_file'), Stub('fh'), Sym(z3.Int('size'), 'int'))
-        ctx.prove('C20.receive_file.reads-at-most-grant', z3.BoolVal(len(asked) == 1) if len(asked) != 1 else z3int(asked[0]) <= grant)
+        # one iteration of the receive loop (the read returns EOF); nothing at all is read when nothing is missing (size <= 0)
+        ctx.prove('C20.receive_file.reads-at-most-grant', z3.BoolVal(not asked) if len(asked) != 1 else z3int(asked[0]) <= grant,
+                  'a chunk larger than the number of granted tokens is read')
+        ctx.prove('C20.receive_file.asks-limiter-per-chunk', len(lim.attrs['take_tokens'].calls) == len(asked),
+                  'every read must be preceded by its own take_tokens()')
     ex.run(recv, 'receive_file-grant')
 
     def send(ctx: Ctx):
